@@ -40,6 +40,8 @@ EXTERNAL_MODEL = {
     "realloc": dict(writes=[0], ret=[0], fresh=True),
     "free": dict(writes=[0], ret=[]),
 }
+for _n in ("strdup", "strndup"):
+    EXTERNAL_MODEL.setdefault(_n, dict(writes=[], ret=[], fresh=True))
 # value-only libm / libc routines: take and return scalars (or only read through their pointer arguments)
 for _n in """ldexpf ldexpl fabs fabsf fabsl floor floorf ceil ceilf round roundf trunc truncf fmod fmodf sqrt sqrtf pow log exp
  copysign copysignf copysignl scalbn scalbnf scalbln scalblnf ilogb ilogbf logb logbf lround lroundf llround llroundf rint rintf
